@@ -743,6 +743,106 @@ func c10SubsetSizes(r *run.Run) {
 		})
 }
 
+// c10CharsetRuns: the charset of a written subset stores runs of consecutive CIDs / string ids as ranges with a
+// one-byte (format 1) or two-byte (format 2) count; whether a run sits on the 256-entry limit of a range depends
+// only on which glyphs are retained.
+func c10CharsetRuns(r *run.Run) {
+	const total = 600
+	mk := func(kind int) *sfnt.Font {
+		f, _ := FontFromChoices(gen.FontOpts{NoMeta: true, NoLayout: true}, kind, 2, 0, 0, 1)
+		o := *f.Outlines.(*cff.Outlines)
+		o.Glyphs = append([]*cff.Glyph{}, o.Glyphs...)
+		for i := len(o.Glyphs); i < total; i++ {
+			g := cff.NewGlyph(fmt.Sprintf("g%03d", i), float64(500+i%7))
+			if i%3 == 0 {
+				g.MoveTo(0, 0)
+				g.LineTo(10, float64(i%50))
+				g.LineTo(20, 0)
+			}
+			o.Glyphs = append(o.Glyphs, g)
+		}
+		if o.IsCIDKeyed() {
+			nfd := len(o.Private)
+			o.FDSelect = func(g glyph.ID) int { return int(g) % nfd }
+			o.GIDToCID = make([]cid.CID, total)
+			for i := range o.GIDToCID {
+				o.GIDToCID[i] = cid.CID(i)
+			}
+		} else {
+			for i := 1; i < len(o.Glyphs); i++ {
+				g := *o.Glyphs[i]
+				g.Name = fmt.Sprintf("g%03d", i)
+				o.Glyphs[i] = &g
+			}
+			o.Encoding = cff.StandardEncoding(o.Glyphs)
+		}
+		f.Outlines = &o
+		return f
+	}
+	fonts := map[int]*sfnt.Font{1: mk(1), 2: mk(2)}
+	runs := []int{254, 255, 256, 257, 258, 510, 511, 512, 513, 514}
+	r.Explore(explore.Config{Name: "C10.subset-charset-runs"},
+		fmt.Sprintf("subsets of a simple and a CID-keyed CFF font with %d glyphs that retain a run of %v consecutive glyphs (at the start of the list or behind a gap; alone or followed by two more glyphs): the subset is written, walked by the independent CFF reader, read back and has the glyph count, names / CIDs and widths of the subset in memory", total, runs),
+		func(c *explore.Ctx) {
+			kind := 1 + c.Choose(2, "outline kind")
+			n := runs[c.Choose(len(runs), "length of the run")]
+			first := []int{1, 20}[c.Choose(2, "first glyph of the run")]
+			tail := c.Choose(2, "glyphs behind the run")
+			list := []glyph.ID{0}
+			for i := 0; i < n; i++ {
+				list = append(list, glyph.ID(first+i))
+			}
+			if tail == 1 {
+				list = append(list, 550, 552)
+			}
+			desc := fmt.Sprintf("%s, glyph 0, a run of %d glyphs from %d, %d more", gen.KindNames[kind], n, first, 2*tail)
+			c.Sample(func() any { return desc })
+			c.Outcome(desc)
+			c.Nontrivial()
+			sub := fonts[kind].Subset(list)
+			buf := &bytes.Buffer{}
+			if _, err := sub.Write(buf); err != nil {
+				c.Fail("C10.write", "charset runs", "the subset cannot be written: %v; %s", err, desc)
+				return
+			}
+			cffBuf := &bytes.Buffer{}
+			if err := sub.AsCFF().Write(cffBuf); err != nil {
+				c.Fail("C10.write", "charset runs", "the CFF data of the subset cannot be written: %v; %s", err, desc)
+				return
+			}
+			if _, err := refcff.Parse(cffBuf.Bytes()); err != nil {
+				c.Fail("C10.reread", "charset runs / independent reader", "the independent CFF reader refuses the written subset: %v; %s", err, desc)
+				return
+			}
+			back, err := sfnt.Read(bytes.NewReader(buf.Bytes()))
+			if err != nil {
+				c.Fail("C10.reread", "charset runs", "the written subset cannot be read: %v; %s", err, desc)
+				return
+			}
+			if back.NumGlyphs() != len(list) {
+				c.Fail("C10.reread", "charset runs", "the re-read subset has %d glyphs, the list %d; %s", back.NumGlyphs(), len(list), desc)
+				return
+			}
+			bo, oo := back.Outlines.(*cff.Outlines), fonts[kind].Outlines.(*cff.Outlines)
+			for i, g := range list {
+				gi := glyph.ID(i)
+				if back.GlyphWidth(gi) != fonts[kind].GlyphWidth(g) {
+					c.Fail("C10.reread", "charset runs width", "glyph %d (original %d) of the re-read subset has width %v, originally %v; %s", i, g, back.GlyphWidth(gi), fonts[kind].GlyphWidth(g), desc)
+					return
+				}
+				if oo.IsCIDKeyed() {
+					if i >= len(bo.GIDToCID) || bo.GIDToCID[i] != oo.GIDToCID[g] {
+						c.Fail("C10.cid", "charset runs", "glyph %d (original %d) of the re-read subset does not have CID %d; %s", i, g, oo.GIDToCID[g], desc)
+						return
+					}
+				} else if back.GlyphName(gi) != fonts[kind].GlyphName(g) {
+					c.Fail("C10.reread", "charset runs name", "glyph %d (original %d) of the re-read subset is called %q, originally %q; %s", i, g, back.GlyphName(gi), fonts[kind].GlyphName(g), desc)
+					return
+				}
+			}
+		})
+}
+
 // c10LargeKerning: kerning data (pair adjustment format 1, the GPOS data the subsetter supports) that needs
 // extension records in the lookup list of the subset.
 func c10LargeKerning(r *run.Run) {
@@ -1242,6 +1342,7 @@ func init() {
 		r.Rule = "bounded exhaustive enumeration of 6-glyph fonts x all duplicate-free glyph lists; oracle through the index map (unique advance widths identify original glyphs); closure = least fixed point of composite components and substitution outputs, computed independently; semantic preservation of rules via the reference shaper on all sequences of <= 3 retained glyphs (listed and appended)"
 		r.Assume = []string{"only layout data the subsetter declares supported: GSUB 1.1 / 4.1, GPOS 2.1, no GDEF", "characters mapping to glyphs that were appended by the closure may or may not be mapped"}
 		c10SubsetSizes(r)
+		c10CharsetRuns(r)
 		c10GlyfSizes(r)
 		c10Hinted(r)
 		c10LargeKerning(r)
